@@ -3,7 +3,7 @@
 check, undo.  A patch that no longer applies (the code it edits was repaired since) is listed as stale.  Writes seeded/REGRESS.json."""
 import json, os, re, subprocess, sys
 VERIF = os.path.dirname(os.path.dirname(os.path.abspath(__file__)))
-REPO = '/repo'
+REPO = os.environ.get('SEED_REPO', '/repo')          # a scratch worktree of /repo may be given instead
 only = sys.argv[1:]
 out = {}
 for d in sorted(os.listdir(os.path.join(VERIF, 'seeded'))):
@@ -18,16 +18,21 @@ for d in sorted(os.listdir(os.path.join(VERIF, 'seeded'))):
     subprocess.run(['git', '-C', REPO, 'apply', p], check=True)
     try:
         r = subprocess.run([os.path.join(VERIF, '.venv/bin/python'), '-m', 'pyvc.run', pid], cwd=VERIF, capture_output=True, text=True, timeout=1800,
-                           env=dict(os.environ, PYTHONWARNINGS='ignore', PYVC_OUT='/tmp/pyvc_seed_regress'))
+                           env=dict(os.environ, PYTHONWARNINGS='ignore', PYVC_OUT='/tmp/pyvc_seed_regress', PYVC_REPO=REPO))
     finally:
         subprocess.run(['git', '-C', REPO, 'checkout', '--', '.'], check=True)
     viol = [l for l in r.stdout.splitlines() if l.startswith('VIOLATION')]
     conf = [l for l in viol if not l.rstrip().endswith('no-failing-input-found')]
     out[d] = dict(rc=r.returncode, violations=len(viol), replayed=len(conf))
+    if 'retired' in json.load(open(os.path.join(VERIF, 'seeded', d, 'meta.json'))):
+        out[d]['retired'] = True          # no longer property-breaking on the repaired tree (meta.json says why): the check has to be quiet
     print(d, out[d], flush=True)
 import shutil
 shutil.rmtree('/tmp/pyvc_seed_regress', ignore_errors=True)
-if not only:
-    json.dump(out, open(os.path.join(VERIF, 'seeded', 'REGRESS.json'), 'w'), indent=1)
-bad = [d for d, v in out.items() if not v.get('stale') and v['rc'] != 1]
+rp = os.path.join(VERIF, 'seeded', 'REGRESS.json')
+if only and os.path.exists(rp):
+    out = dict(json.load(open(rp)), **out)          # a subset run refreshes its entries
+json.dump(dict(sorted(out.items())), open(rp, 'w'), indent=1)
+bad = [d for d, v in out.items() if not v.get('stale') and not v.get('retired') and v['rc'] != 1]
 print('not reported:', bad)
+print('retired but reported (alarm on a harmless change):', [d for d, v in out.items() if v.get('retired') and v['rc'] != 0])
